@@ -14,7 +14,7 @@ EXPLANATION = ("Real httping.EventSource.parseEvents (over parseLine with eols C
                "symbolic byte strings for fragmentation independence.")
 FUNCTIONS = [('hio.core.http.httping', 'EventSource.parseEvents'), ('hio.core.http.httping', 'EventSource.parse'), ('hio.core.http.httping', 'parseLine'),
              ('hio.core.http.clienting', 'Respondent.parseBody'), ('hio.core.http.clienting', 'Respondent.parseHead')]
-BOUNDS = {'quick': dict(lines=3, prim_len=4, budget_s=150, audit_max=6), 'thorough': dict(lines=4, prim_len=5, budget_s=1500, audit_max=20)}
+BOUNDS = {'quick': dict(lines=3, prim_len=4, budget_s=150, audit_max=6), 'thorough': dict(lines=3, lines_source=4, prim_len=5, budget_s=1500, audit_max=20)}
 OUTSIDE = ['streams longer than the bound / field values other than the grammar\'s', 'data fields with empty values', 'BOM handling', 'json event data (dictable)', 'a stream ending in a bare CR with no further byte ever arriving']
 STUBS = []
 ASSUMPTIONS = ['WHATWG event-stream dispatch rules as implemented by the 30-line reference in this module']
@@ -32,7 +32,7 @@ def partitions(tier):
     ps = []
     for mode in ('source', 'resp-close', 'resp-chunked'):
         for first in range(len(LINES) - 1):
-            ps.append(dict(name='%s-first-%d' % (mode, first), form='stream', mode=mode, first=first, lines=b['lines']))
+            ps.append(dict(name='%s-first-%d' % (mode, first), form='stream', mode=mode, first=first, lines=b.get('lines_source', b['lines']) if mode == 'source' else b['lines']))
     for n in range(2, b['prim_len'] + 1):
         ps.append(dict(name='prim-line-CRLFxLFxCR-len%d' % n, form='prim', n=n))
     return ps
